@@ -861,7 +861,7 @@ func c06xExec(w *c06xWorld, h c06xHist, mask []bool) (run c06xRun) {
 				t = s.Where("id < ?", 0).Delete(model())
 			}
 			switch c06xFins[o.A] {
-			case "UpdateNoRows", "DeleteNoRows":
+			case "UpdateNoRows", "DeleteNoRows", "Create", "CreateSlice", "UpdateGlobalNotes":
 				evs := w.rec.Snapshot()
 				w.restore() // an Or condition can make them hit rows: later reads must see the original data
 				w.rec.Events = evs
@@ -1045,6 +1045,9 @@ func c06xJudge(w *c06xWorld, h c06xHist) (full c06xRun, bad []c06xMismatch) {
 				continue // a query executed earlier on the chain instance FAILED: the instance keeps the error (gorm's contract)
 			}
 			f.Clauses, a.Clauses = c06xLooseClauses(f.Clauses), c06xLooseClauses(a.Clauses)
+			if f.Err != "" && f.Err == a.Err {
+				f.Rows, a.Rows = 0, 0 // a failing finisher does not reset the RowsAffected the earlier query left on the instance
+			}
 		}
 		if ok && !c06xSameObs(f, a) {
 			bad = append(bad, c06xMismatch{Op: i, InHist: f, Alone: a, What: c06xWhat(f, a)})
